@@ -37,6 +37,7 @@ EXPLANATION = (
     "every write of a union-find parent link is dominated by a test that the two nodes differ or happens during path "
     "compression, so find() cannot cycle; (CENSUS) all "
     "panic-capable sites of the four crates are enumerated and classified (contract / guarded / unreviewed) as evidence."
+    " (K10 absent=>Err) solve() returns an error when no global `start` exists, which is what keeps the lowering's `.find(..).unwrap()` from meeting None."
 )
 UNDECIDED = ("absence of panics at the unreviewed census sites, arithmetic overflow, native stack depth on deeply nested input, "
              "termination of the parser loops (PROGRESS was not built) and of the type checker in general.")
